@@ -172,7 +172,29 @@ func c10Validation(c *eng.Ctx, ns *ssa.Function) {
 		if !eng.IsNilConst(eng.Origin(rv[2])) {
 			continue
 		}
-		// success return: rv[0] is the final list; a full-range loop over it rejects ""
+		// success return: rv[0] is the final list.  Either the return is on the
+		// false edge of slices.Contains(list, ""), whose true edge fails ...
+		for _, cond := range eng.FactsAt(r) {
+			call, _, truth, isCall := cond.BoolCall()
+			if !isCall || truth || !eng.CalleeIs(&call.Call, "slices", "Contains") || len(call.Call.Args) != 2 {
+				continue
+			}
+			if s, isC := eng.ConstString(call.Call.Args[1]); !isC || s != "" {
+				continue
+			}
+			if !(call.Call.Args[0] == rv[0] || eng.Same(call.Call.Args[0], rv[0])) || cond.If == nil {
+				continue
+			}
+			for i, succ := range cond.If.Block().Succs {
+				if _, t, _ := eng.CondOf(cond.If.Cond, i == 0).Bool(); !t {
+					continue
+				}
+				if r2, isR := succ.Instrs[len(succ.Instrs)-1].(*ssa.Return); isR && nonNilAt(eng.RetVals(r2)[2], eng.FactsAt(r2)) == eng.Yes {
+					okEmpty = true
+				}
+			}
+		}
+		// ... or a full-range loop over it rejects ""
 		for _, rl := range eng.RangeLoops(sn) {
 			if !(rl.Slice == rv[0] || eng.Same(rl.Slice, rv[0])) {
 				continue
@@ -578,7 +600,6 @@ func isIntType(t types.Type) bool {
 	b, ok := t.Underlying().(*types.Basic)
 	return ok && b.Info()&types.IsInteger != 0
 }
-
 
 // isFetchCall: a request to the service, made directly or by a module helper
 // whose body (transitively) does.
